@@ -19,3 +19,10 @@ package medley
 //@   invariant len(ranges) == 0 ==> i == start
 //@   invariant len(ranges) >= 1 ==> i == ranges[len(ranges) - 1][1] + 1 && i <= end + 1
 //@   invariant rangesOK(ranges, start, end, maxRange, len(ranges))
+
+//@ func EnsureUniqueAddresses
+//@   ensures ret0 == nil <==> (forall i, j :: 0 <= i && i < j && j < len(addrs) ==> addrs[i] != addrs[j])
+//@   invariant seen != nil && fresh(seen)
+//@   invariant forall j :: 0 <= j && j <= rangeindex ==> has(seen, addrs[j])
+//@   invariant forall a Arr :: has(seen, a) ==> (exists j :: 0 <= j && j <= rangeindex && addrs[j] == a)
+//@   invariant forall i, j :: 0 <= i && i < j && j <= rangeindex ==> addrs[i] != addrs[j]
